@@ -300,12 +300,19 @@ class ComponentContext(Context):
                 self._format_resource_description(type, name),
             )
 
-            # Wait until a matching resource or resource factory is available
-            await self._context.resource_added.wait_event(
-                lambda event: event.resource_name == name
-                and type in event.resource_types,
-            )
-            res = await self._context.get_resource(type, name)
+            # Wait until a matching resource or resource factory is available. The
+            # lookup is retried after every publication instead of filtering the
+            # events, because a burst of unrelated publications could overflow the
+            # event queue and drop the one event this component is waiting for.
+            while True:
+                await self._context.resource_added.wait_event()
+                try:
+                    res = await self._context.get_resource(type, name)
+                except ResourceNotFound:
+                    continue
+
+                break
+
             logger.debug(
                 "%s got the resource it was waiting for (%s)",
                 format_component_name(self.path, capitalize=True),
